@@ -25,6 +25,34 @@ CANON = "key::CoseKey::canonicalize"
 SORT_BY = "alloc::slice::<impl [T]>::sort_by"
 
 
+def _chosen_functions(prog, f, pv, sort_effect, func_term):
+    """{ordering variant: function path} for a comparator captured by the sort closure as a function-pointer local"""
+    from lib import codec
+    out = {}
+    t = f.blocks[sort_effect["bb"]]["term"]
+    d = codec.find_def_stmt(pv, t["args"][1], sort_effect["bb"], "term")
+    if not d or d[0] != "stmt" or d[1]["k"] != "aggr" or d[1].get("kind") != "closure":
+        return out
+    # which capture does the closure call?  (`(*_1.i)(..)` / `(_1.i)(..)`)
+    x = func_term
+    while x[0] in ("deref", "ref"):
+        x = x[1]
+    if not (x[0] == "field" and str(x[2]).isdigit()):
+        return out
+    cap = d[1]["ops"][int(x[2])]
+    r = codec.chase_ref_to_local(pv, cap, d[2], d[3]) or ((cap["place"]["l"], d[2], d[3]) if cap["k"] in ("copy", "move") and not cap["place"]["p"] else None)
+    if r is None:
+        return out
+    l, rbb, ridx = r
+    for term, dbb in codec.arms(pv, {"k": "copy", "place": {"l": l, "p": []}}, rbb, ridx):
+        while term[0] == "cast":
+            term = term[2]
+        names = path_variants(prog, pv, conditions(f, pv, dbb)).get(("param", 1))
+        if term[0] == "fn" and names and len(names) == 1:
+            out[next(iter(names))] = term[2]
+    return out
+
+
 def check(ctx):
     prog = ctx.prog
     f = prog.fn(CANON)
@@ -39,7 +67,7 @@ def check(ctx):
             continue
         else:
             others.append(e)
-    ctx.ob("R-1", "frame", not others and len(sorts) == 2 and all(_sorted_place(s["place"]) == params_place for s in sorts),
+    ctx.ob("R-1", "frame", not others and len(sorts) in (1, 2) and all(_sorted_place(s["place"]) == params_place for s in sorts),
            "canonicalize touches nothing but `params`, and only by sort_by (a permutation of the list)", where=f.span,
            detail={"other_effects": [show(e["place"])[:60] for e in others], "sorts": [show(s["place"])[:80] for s in sorts]},
            sample={"sorted": [show(s["place"])[:80] for s in sorts]})
@@ -49,14 +77,18 @@ def check(ctx):
         pvs = path_variants(prog, pv, conditions(f, pv, s["bb"]))
         names = pvs.get(("param", 1))
         clo = s["args"][1]
-        body = None
-        if clo[0] == "closure" and clo[1] in prog.fns:
-            rt = Prov(prog.fns[clo[1]]).return_term()
-            if is_call(rt) and len(rt[2]) == 2:
-                a, b = _side(rt[2][0]), _side(rt[2][1])
-                body = (rt[1], a, b)
-        if names and len(names) == 1:
-            got[next(iter(names))] = body
+        if not (clo[0] == "closure" and clo[1] in prog.fns):
+            continue
+        rt = Prov(prog.fns[clo[1]]).return_term()
+        if is_call(rt) and rt[1] != "<indirect>" and len(rt[2]) == 2:
+            # one sort per ordering, each with its own comparator
+            if names and len(names) == 1:
+                got[next(iter(names))] = (rt[1], _side(rt[2][0]), _side(rt[2][1]))
+        elif is_call(rt, "<indirect>") and len(rt[2]) == 3:
+            # one sort through a comparator VALUE chosen by the ordering (`let cmp: fn(..) = match ordering { .. }`)
+            sides = (_side(rt[2][1]), _side(rt[2][2]))
+            for variant, fn_path in _chosen_functions(prog, f, pv, s, rt[2][0]).items():
+                got[variant] = (fn_path, sides[0], sides[1])
     ok = set(got) == set(want) and all(got[k] == (want[k], 1, 2) for k in want)
     ctx.ob("R-1", "comparators", ok,
            "Lexicographic sorts by Label::cmp(l.0, r.0) and LengthFirstLexicographic by Label::cmp_canonical(l.0, r.0), operands not swapped",
